@@ -78,14 +78,16 @@ def main() -> int:
         return selftest()
     if a.extras:
         try:
-            from . import extras
-            ctx = core.Ctx("X01", a.tier, seed)
-            extras.run(ctx)
-            rc = ctx.finish()
-            ev = core.VERIF / "evidence" / "X01.json"       # not a listed property: its evidence lives with the notes
-            if ev.exists():
-                ev.replace(core.VERIF / "notes" / "extras-evidence.json")
-            return rc
+            from . import extras, factories
+            worst = 0
+            for xid, mod, name in (("X01", extras, "extras-evidence.json"), ("X02", factories, "factories-evidence.json")):
+                ctx = core.Ctx(xid, a.tier, seed)
+                mod.run(ctx)
+                worst = max(worst, ctx.finish())
+                ev = core.VERIF / "evidence" / f"{xid}.json"       # not a listed property: its evidence lives with the notes
+                if ev.exists():
+                    ev.replace(core.VERIF / "notes" / name)
+            return worst
         except MachineryError as ex:
             print(f"[X01] MACHINERY FAILURE: {ex}", file=sys.stderr)
             return 2
